@@ -130,7 +130,10 @@ func runLib(p *Program, pol gen.Policy, twigEnv bool) (o runOut) {
 // runModel renders the program with the reference model. inRegion is false when
 // the model refused the program (generator left the agreement region).
 func runModel(p *Program) (o runOut, steps int, inRegion bool, why string) {
-	in := &model.Interp{Prog: p.Templates}
+	return runModelWith(p, &model.Interp{Prog: p.Templates})
+}
+
+func runModelWith(p *Program, in *model.Interp) (o runOut, steps int, inRegion bool, why string) {
 	ctx := map[string]interface{}{}
 	inRegion = true
 	func() {
